@@ -78,10 +78,10 @@ def table_cases():
 
 
 def run_table_case(case, C: Counter, viol, do_run: bool, cache: bool = True, pre_connect: bool = False,
-                   pre_reverse: bool = False):
+                   pre_reverse: bool = False, with_async: bool = False):
     p, q, same_sim, sa, da, ckind, ckw, has_init = case
     if same_sim:
-        pre_connect = pre_reverse = False
+        pre_connect = pre_reverse = with_async = False
     if same_sim and ckind == "plain":
         return  # an unresolved self-cycle: C06's subject; connect() itself accepts it
     dst = "A" if same_sim else "B"
@@ -89,6 +89,11 @@ def run_table_case(case, C: Counter, viol, do_run: bool, cache: bool = True, pre
     conn.update(ckw)
     if has_init:
         conn["init"] = "INIT"
+    if with_async:
+        # the same call with async_requests=True: a refused call must not leave the asynchronous channel
+        # (mutual waits, authorisation for set_data/get_data) behind either
+        conn["async"] = True
+        C["async_flag_cases"] += 1
     scn = mk_pair_scn(p, q, same_sim, conn, cache=cache)
     if pre_connect:
         # a sequence of calls: first an ordinary accepted connection between the same two simulators (other
@@ -111,6 +116,7 @@ def run_table_case(case, C: Counter, viol, do_run: bool, cache: bool = True, pre
     probs = expected_problems(sa, da, ckind, has_init, p, q)
     desc = {"src_path": list(p), "dst_path": list(q), "same_simulator": same_sim, "src_attr": sa, "dst_attr": da,
             "connection": ckind, "initial_data": has_init, "cache": cache, "after_an_accepted_connection": pre_connect,
+            "async_requests": with_async,
             "after_an_accepted_connection_in_the_other_direction": pre_reverse}
     C["connect_cases"] += 1
     C["cache_on" if cache else "cache_off"] += 1
@@ -137,8 +143,11 @@ def run_table_case(case, C: Counter, viol, do_run: bool, cache: bool = True, pre
         return
     if not do_run or pre_reverse:
         return
+    if with_async and not rejected:
+        return
     if rejected and not same_sim:
         C["rejected_pairs_run"] += 1
+        C["rejected_pairs_run_async_flag"] += int(with_async)
         # no data-flow: B never sees a value of A
         for e in tr["events"]:
             if e.get("op") == "call" and e.get("kind") == "step" and e["sid"] == "B" and e["inputs"]:
@@ -298,6 +307,81 @@ def api_cases(C: Counter) -> List[dict]:
     return out
 
 
+def group_fault_cases(C: Counter) -> List[dict]:
+    """A `with world.group():` block that is left by an exception (a start that fails, an error in the user's own
+    code) and the exception handled outside: simulators started afterwards at top level are in NO group, so a weak
+    connection between them, or between one of them and a member of the aborted group, has to be refused; a new
+    group opened afterwards is a fresh top-level group (its members share a group with each other only)."""
+    import mosaik
+    import warnings
+    from mosaik.exceptions import ScenarioError
+    from ..build import setup_logging
+    setup_logging()
+    out: List[dict] = []
+    spec = {"type": "hybrid", "entities": ["e0"], "ins": {"t": "trigger"}, "outs": {"e": "nonpersistent"}}
+
+    def weak_ok(world, a, b):
+        try:
+            world.connect(a, b, ("e", "t"), weak=True)
+            return True
+        except ScenarioError:
+            return False
+
+    for how in ("exception_in_user_code", "failing_start", "nested_inner_aborted"):
+        with warnings.catch_warnings():
+            warnings.simplefilter("ignore")
+            world = mosaik.World({"S": {"python": "vlab.sims:ScriptedSim"}}, skip_greetings=True)
+            try:
+                inner_member = None
+                try:
+                    with world.group():
+                        fa = world.start("S", sim_id="A", spec=spec)
+                        if how == "exception_in_user_code":
+                            raise KeyError("user code failed inside the group block")
+                        if how == "failing_start":
+                            world.start("NoSuchSimulator")
+                        if how == "nested_inner_aborted":
+                            try:
+                                with world.group():
+                                    inner_member = world.start("S", sim_id="I", spec=spec)
+                                    raise KeyError("inner block failed")
+                            except KeyError:
+                                pass
+                            # still inside the OUTER group: started here = member of the outer group only
+                            fo = world.start("S", sim_id="O", spec=spec)
+                            raise KeyError("outer block failed as well")
+                except (KeyError, ScenarioError):
+                    pass
+                fb = world.start("S", sim_id="B", spec=spec)       # top level: in no group
+                fc = world.start("S", sim_id="C", spec=spec)       # top level: in no group
+                with world.group():
+                    fd = world.start("S", sim_id="D", spec=spec)
+                    fe = world.start("S", sim_id="E", spec=spec)
+                ea, eb, ec, ed, ee = fa.M(), fb.M(), fc.M(), fd.M(), fe.M()
+                checks = [("aborted-group member -> later top-level simulator", ea, eb, False),
+                          ("later top-level simulator -> aborted-group member", eb, ea, False),
+                          ("two later top-level simulators", eb, ec, False),
+                          ("aborted-group member -> member of a later group", ea, ed, False),
+                          ("later top-level simulator -> member of a later group", eb, ed, False),
+                          ("two members of the later group", ed, ee, True)]
+                if how == "nested_inner_aborted":
+                    ei, eo = inner_member.M(), fo.M()
+                    checks += [("outer-group member started after the inner block failed -> inner member", eo, ei, True),
+                               ("outer-group member -> first outer member", eo, ea, True),
+                               ("inner member -> later top-level simulator", ei, eb, False)]
+                for what, x, y, want in checks:
+                    C["group_fault_weak_connects"] += 1
+                    got = weak_ok(world, x, y)
+                    if got != want:
+                        out.append({"kind": "accepted_but_invalid" if got else "rejected_but_valid",
+                                    "case": {"group_block_left_by_exception": how, "weak_connection": what},
+                                    "expected_problems": [] if want else ["weak connection between simulators that share no group"]})
+                C["group_fault_cases"] += 1
+            finally:
+                world.shutdown()
+    return out
+
+
 def obligations(st):
     return st.get("steps", 0)
 
@@ -326,6 +410,9 @@ def run_slice(job: dict) -> dict:
         if (k // W) % 3 == 1:
             run_table_case(case, C, viol, do_run=True, cache=bool((k // W) % 2), pre_reverse=True)
             res["evaluations"] += 1
+        if (k // W) % 3 == 2:
+            run_table_case(case, C, viol, do_run=True, cache=bool((k // W) % 2), with_async=True)
+            res["evaluations"] += 1
         res["evaluations"] += 1
         res["hashes"].add(H([list(case[0]), list(case[1])] + list(case[2:6]) + [case[7]]) % (1 << 52))
         if len(res["samples"]) < 1 and k % 1301 == 0:
@@ -345,6 +432,13 @@ def run_slice(job: dict) -> dict:
             C["unlisted_violations"] += 1
             if len(res["violations"]) < 10:
                 res["violations"].append({"v": vv, "replay": {"api_case": True}})
+        res["evaluations"] += 1
+    if w == 2 % W:
+        for vv in group_fault_cases(C):
+            C["violation_" + vv["kind"]] += 1
+            C["unlisted_violations"] += 1
+            if len(res["violations"]) < 10:
+                res["violations"].append({"v": vv, "replay": {"group_fault_case": True}})
         res["evaluations"] += 1
     # ---- (B) group scoping end-to-end with the engine-A monitors ------------------------
     def post(scn, tr, a):
@@ -383,12 +477,15 @@ def replay(rep: dict) -> List[dict]:
             out.append(kw)
         run_table_case(case, Counter(), viol, True, cache=d.get("cache", True),
                        pre_connect=d.get("after_an_accepted_connection", False),
-                       pre_reverse=d.get("after_an_accepted_connection_in_the_other_direction", False))
+                       pre_reverse=d.get("after_an_accepted_connection_in_the_other_direction", False),
+                       with_async=d.get("async_requests", False))
         return out
     if "hier_case" in r:
         return hier_cases(Counter())
     if "api_case" in r:
         return api_cases(Counter())
+    if "group_fault_case" in r:
+        return group_fault_cases(Counter())
     if "scn" in r:
         from ..monitors import Analysis
         tr = run_case(r["scn"], dict(r["sched"]))
@@ -425,7 +522,11 @@ def evidence(m, tier, seed):
                 "followed by a run (a refused connection must leave nothing behind that closes a cycle); (A2, counters api_*) the plain API against 10 destination "
                 "models whose input kinds come from type defaults and any_inputs (destination attributes listed nowhere), with "
                 "one initial_data dict object reused for two calls and one source attribute mapped to two destination "
-                "attributes in one call; real connect(), then a "
+                "attributes in one call; (A3) every third table case again with async_requests=True in the same call (a refused "
+                "call must not leave the asynchronous channel behind: no mutual wait in the following run); (A4, counters "
+                "group_fault_*) `with world.group()` blocks left by an exception that is handled outside (error in user code, "
+                "failing start, nested inner block): which later weak connections are accepted shows who shares a group; "
+                "real connect(), then a "
                 "run with the source starved to show that a rejected pair left no data-flow, output request, "
                 "trigger or wait; (B) generated scenarios with sibling/nested groups and weak loops under the "
                 "step-set and ordering monitors (labels by group path); distinct_nontrivial = distinct table "
